@@ -185,10 +185,11 @@ impl Cell {
     }
     fn need_store(&self) -> bool {
         match self.st {
-            // a fresh object with offline publishing keeps packets; after a connection the last CONNECT decides
+            // an object with offline publishing keeps packets while disconnected, before its first
+            // connection and after any other; a persistent session keeps storing after its connection
             St::Disc => {
                 if self.reused {
-                    self.persistent
+                    self.persistent || self.offline
                 } else {
                     self.offline
                 }
